@@ -61,14 +61,21 @@ CHECKS["C19"] = {
 CHECKS["C16"] = {
     "level": "proof",
     "text": "Kernel-checked theorems over ordered fields for the AverageLearner model (moments, variance identity, corrected sample "
-            "std, loss formula, fresh seeds incl. pigeonhole for the set-iteration branch) and the AverageLearner1D sampling model "
-            "(value = mean, counts, Student-t error, batch = single, under-sampled set tracked and served). Same definitions run at "
-            "Float in lock-step with the real learners; statistics re-derived exactly with Fractions. One recorded finding "
-            "(literal 'goes to an abscissa with fewer than min_samples' reading).",
+            "std, loss formula, fresh seeds incl. pigeonhole for the set-iteration branch), the AverageLearner1D sampling model "
+            "(value = mean, counts, Student-t error, batch = single, under-sampled set tracked and served) and the COMPLETE "
+            "AverageLearner1D model Avg1DFull.lean (Learner1D loss machinery, distances, rescaled errors, all three branches of ask): "
+            "for every state the ask rule (under-sampled member / largest rescaled error above delta and below max_samples / "
+            "Learner1D's new point), for every history rescaled_error sorted with rescaled_error[x] = error[x] / min neighbouring "
+            "distance, distances and running means current, sampling part = the sampling model (statistics carry over). Same "
+            "definitions run at Float in lock-step with the real learners (full model: bit for bit incl. both loss tables, "
+            "rescaled_error in container order, ask points/improvements/branch); statistics, rescaled errors and the ask rule "
+            "re-derived on the real objects. One recorded finding (literal 'goes to an abscissa with fewer than min_samples' reading).",
     "design_ref": "DESIGN.md section 6 C16",
-    "note": "Trusted: Lean kernel, standard axioms, hand models Avg.lean/Avg1D.lean tied by differential testing (1e-7 relative on "
-            "floats: python sum() is compensated, pow for **2/**0.5, pairwise np.mean), scipy.stats.t.ppf as recorded oracle, "
-            "sqrt law sqrt(x)^2=x. The Learner1D-inherited loss machinery of AverageLearner1D is not modelled.",
+    "note": "Trusted: Lean kernel, standard axioms, hand models Avg.lean/Avg1D.lean/Avg1DFull.lean (on L1D.lean) tied by differential "
+            "testing (first two: 1e-7 relative on floats; full model: exact, with recorded corrections of sqrt/hypot checked to 1e-9 "
+            "relative where python's compensated sum/pow/math.hypot differ by ulps), scipy.stats.t.ppf and the loss function as recorded "
+            "oracles, sqrt law sqrt(x)^2=x, sortedcontainers tie order. Not proved: values of the inherited loss tables of "
+            "AverageLearner1D (lock-step only; its re-computation loops iterate the live container).",
     "technique": T,
 }
 
